@@ -58,7 +58,7 @@ def _mods():
 
 # ------------------------------------------------------------------ replay
 
-def replay(model, target="oil.b_o_Standing", dtype="f8", n=2, intparams=False, series=False):
+def replay(model, target="oil.b_o_Standing", dtype="f8", n=2, intparams=False, series=False, view=False):
     import numpy as np
     import bluebonnet.fluids.oil as oil
     import bluebonnet.fluids.water as water
@@ -69,6 +69,8 @@ def replay(model, target="oil.b_o_Standing", dtype="f8", n=2, intparams=False, s
     if dtype.startswith("i"):
         vals = [float(round(v)) for v in vals]
     arr = np.array(vals, dtype=NP_DT[dtype])
+    if view:
+        arr = arr[::-1].copy()[::-1]      # the same values as a negative-stride view of another array
     if series:
         # a column of a re-ordered table: index labels n-1..0 in row order (positions pair pressures with results)
         import pandas as pd
@@ -154,7 +156,7 @@ def job_target(job, target, lengths):
         job.encoded(mod, "Fluid." + fn.split(".")[-1] if not fn.startswith("Fluid") else fn)
     job.bound(dtypes=list(DTYPES), lengths={k: list(v) for k, v in lengths.items()} if isinstance(lengths, dict) else list(lengths))
     job.assume_text("element values are reals (binary32 rounding not modelled; integer wrap-around is a proved-absent condition); tolerance 1e-9 (1e-5 for float32); "
-                    "strided / non-contiguous inputs are outside the model (memory layout is not modelled)")
+                    "negative-stride views are modelled through their memory order (np.nditer); other non-contiguous layouts (positive strides > 1, 2-D transposes) are outside the model")
     vs_f, dom_f = box(None, S=(0, 25), **OILV)
     vs_i, dom_i = box(None, _integer=("T", "api", "rsi", "S"), S=(0, 25), **OILV)
     if call_scalar is None:
@@ -162,8 +164,10 @@ def job_target(job, target, lengths):
     job.assume_text("integer dtypes: element values in [15, 20000]; 'python-int parameters' variant: temperature, API gravity, "
                     "initial GOR and salinity are Python ints (whole numbers), gas gravity a float; integer-dtype array arithmetic "
                     "must stay inside the dtype's range on that box (no silent wrap-around)")
-    variants = [(dt, False, False) for dt in DTYPES] + [(dt, True, False) for dt in ("i8", "i4")] + [("f8", False, True)]
+    variants = [(dt, False, False) for dt in DTYPES] + [(dt, True, False) for dt in ("i8", "i4")] + [("f8", False, True), ("f8", False, "view")]
     for dt, intp, ser in variants:
+        view = ser == "view"
+        ser = ser is True
         vs, dom = (vs_i, dom_i) if intp else (vs_f, dom_f)
         for n in (lengths[dt] if isinstance(lengths, dict) else lengths):
             if (intp and n == 0) or (ser and n < 2):
@@ -172,11 +176,15 @@ def job_target(job, target, lengths):
             edom = []
             for e in els:
                 edom += [T.b_le(T.Poly.const(15), P(e)), T.b_le(P(e), T.Poly.const(20000))]
-            rp = (replay, {"target": target, "dtype": dt, "n": n, "intparams": intp, "series": ser})
-            tag = f"{target}[{NP_DT[dt]}{',python-int parameters' if intp else ''}{',Series labelled n-1..0' if ser else ''},len={n}]"
+            if view and n < 2:
+                continue
+            rp = (replay, {"target": target, "dtype": dt, "n": n, "intparams": intp, "series": ser, "view": view})
+            tag = f"{target}[{NP_DT[dt]}{',python-int parameters' if intp else ''}{',Series labelled n-1..0' if ser else ''}{',negative-stride view' if view else ''},len={n}]"
 
             def run():
                 arr = SymArray([Sym(e.p) for e in els], dt) if not ser else pd_shim.SymSeries([Sym(e.p) for e in els], dt, list(range(n - 1, -1, -1)))
+                if view:
+                    arr = SymArray([Sym(e.p) for e in reversed(els)], dt)[::-1]      # logical order e0, e1, ...; memory order reversed
                 snap = list(arr.d)
                 out = call_arr(mod, vs, arr)
                 scal = [call_scalar(mods, vs, e) for e in els]
